@@ -220,6 +220,9 @@ def directionality_table(prog, rep):
     try:
         outs = m.run(m.start(key, [Str(("input",))]))
     except ip.AnalysisError as e:
+        if "next" in str(e) or "iteration" in str(e) or "find" in str(e):
+            rep.ob("wrapper", "directionality_rule decides from has_rtl and satisfy_bidi_rule alone", False, "the wrapper examines the string's characters itself (%s): whether the Bidi rule applies must be has_rtl's answer — a pre-filter is a second, possibly narrower, definition of 'contains a right-to-left character'" % str(e)[:120], b.where(), key="wrapper|inspects-input")
+            return False
         rep.analysis_error("wrapper", key, e, b.where())
         return False
     got = set()
@@ -369,3 +372,21 @@ def lookup_default(prog, rep):
     if err is None and w.findings:
         err = "; ".join(f["detail"] for f in w.findings[:2])
     rep.ob("lookup", "bidi_class_cp(cp) = the table's class of cp, L when not listed — for every code point (%d paths)" % len(outs), err is None, err or "", b.where(), key="lookup|default", sample=True)
+    # the character-level entry point used by the rule must be the same function of the code point
+    key2 = BIDI + "bidi_class"
+    b2 = prog.body(key2)
+    if b2 is None:
+        rep.ob("lookup", key2, False, "not found")
+        return
+    rep.fn(key2)
+    w2 = tt.TotalWorld(prog, set(), key2)
+    m2 = ip.Machine(prog, w2)
+    try:
+        outs2 = m2.run(m2.start(key2, [ip.Sym("cp", "char")]))
+    except ip.AnalysisError as e:
+        rep.analysis_error("lookup", key2, e, b2.where())
+        return
+    err2 = common.exact_lookup(outs2, "cp", "char", rows, "L", decode)
+    if err2 is None and w2.findings:
+        err2 = "; ".join(f["detail"] for f in w2.findings[:2])
+    rep.ob("lookup", "bidi_class(c) = the table's class of c, L when not listed — for every character (%d paths)" % len(outs2), err2 is None, err2 or "", b2.where(), key="lookup|char-entry", sample=True)
